@@ -3,6 +3,7 @@ package props
 import (
 	"context"
 	"fmt"
+	lisp "github.com/jig/lisp"
 	"sort"
 	"strings"
 	"time"
@@ -20,7 +21,10 @@ import (
 
 // ---- atom operation alphabet and its sequential specification -----------------
 
-type atomSt struct{ a, b, k int } // k: the element of the list held by atom k
+type atomSt struct {
+	a, b, k int    // k: the element of the list held by atom k
+	w       string // printed form of the sequence held by atom w
+}
 
 type atomOp struct {
 	name string
@@ -36,6 +40,8 @@ type atomOp struct {
 }
 
 func iv(i int) string { return fmt.Sprint(i) }
+
+const c09CoreOps = 11
 
 var atomOps = []atomOp{
 	{"deref", func(c int) string { return "@a" }, func(s atomSt, c, k int) (atomSt, string) { return s, iv(s.a) }, false, false, nil},
@@ -60,6 +66,12 @@ var atomOps = []atomOp{
 	{name: "swap!-inc-under-caller-context", text: func(c int) string { return "(swap! a inc)" }, spec: func(s atomSt, c, k int) (atomSt, string) { s.a++; return s, iv(s.a) }, mayFail: true},
 	{name: "end-caller-context", text: func(c int) string { return "<the caller context ends>" }, spec: func(s atomSt, c, k int) (atomSt, string) { return s, "0" },
 		harness: func(st *c09state) int { st.cancel(); return 0 }},
+	// an atom holding a sequence: a list and a vector with the same elements are = but behave differently
+	// (conj adds in front of a list, at the end of a vector), so an update must never be mistaken for a no-op
+	{name: "reset!-w-to-list", text: func(c int) string { return "(pr-str (reset! w (list 1 2)))" }, spec: func(s atomSt, c, k int) (atomSt, string) { s.w = "(1 2)"; return s, fmt.Sprintf("%q", s.w) }},
+	{name: "reset!-w-to-vector", text: func(c int) string { return "(pr-str (reset! w [1 2]))" }, spec: func(s atomSt, c, k int) (atomSt, string) { s.w = "[1 2]"; return s, fmt.Sprintf("%q", s.w) }},
+	{name: "swap!-w-conj", text: func(c int) string { return "(pr-str (swap! w conj 3))" }, spec: func(s atomSt, c, k int) (atomSt, string) { s.w = c09conj3(s.w); return s, fmt.Sprintf("%q", s.w) }},
+	{name: "deref-w", text: func(c int) string { return "(pr-str @w)" }, spec: func(s atomSt, c, k int) (atomSt, string) { return s, fmt.Sprintf("%q", s.w) }},
 	{"first-of-k", func(c int) string { return "(first @k)" }, func(s atomSt, c, k int) (atomSt, string) { return s, iv(s.k) }, false, false, nil},
 }
 
@@ -74,6 +86,7 @@ type c09state struct {
 	inner   map[int]int // op constant -> how many times its update function ran
 	scope   types.EnvType
 	a, b, k *concurrent.Atom
+	w       *concurrent.Atom
 	cctx    context.Context // caller context of the operations that may fail
 	cancel  context.CancelFunc
 	clock   int
@@ -95,7 +108,7 @@ type linEvent struct {
 
 var linCache = map[string]bool{}
 
-func linearizable(hist []*histOp, finalA, finalB, finalK int, innerRuns map[int]int) (bool, string) {
+func linearizable(hist []*histOp, finalA, finalB, finalK int, finalW string, innerRuns map[int]int) (bool, string) {
 	var kb strings.Builder
 	for _, h := range hist {
 		fmt.Fprintf(&kb, "%d:%d:%d:%d:%s|", h.op, h.c, h.inv, h.ret, h.result)
@@ -103,12 +116,12 @@ func linearizable(hist []*histOp, finalA, finalB, finalK int, innerRuns map[int]
 	for _, h := range hist {
 		fmt.Fprintf(&kb, "k%d,", innerRuns[h.c])
 	}
-	fmt.Fprintf(&kb, "%d,%d,%d", finalA, finalB, finalK)
+	fmt.Fprintf(&kb, "%d,%d,%d,%s", finalA, finalB, finalK, finalW)
 	key := kb.String()
 	if v, ok := linCache[key]; ok && v {
 		return true, ""
 	}
-	ok, why := linearizableUncached(hist, finalA, finalB, finalK, innerRuns)
+	ok, why := linearizableUncached(hist, finalA, finalB, finalK, finalW, innerRuns)
 	if len(linCache) > 200000 {
 		linCache = map[string]bool{}
 	}
@@ -116,7 +129,7 @@ func linearizable(hist []*histOp, finalA, finalB, finalK int, innerRuns map[int]
 	return ok, why
 }
 
-func linearizableUncached(hist []*histOp, finalA, finalB, finalK int, innerRuns map[int]int) (bool, string) {
+func linearizableUncached(hist []*histOp, finalA, finalB, finalK int, finalW string, innerRuns map[int]int) (bool, string) {
 	var ev []linEvent
 	for _, h := range hist {
 		ev = append(ev, linEvent{h.inv, h.ret, h.op, h.c, h.result})
@@ -135,17 +148,17 @@ func linearizableUncached(hist []*histOp, finalA, finalB, finalK int, innerRuns 
 			}
 		}
 	}
-	if len(ev) <= 24 && linSearch(ev, finalA, finalB, finalK) {
+	if len(ev) <= 24 && linSearch(ev, finalA, finalB, finalK, finalW) {
 		return true, ""
 	}
 	var p []string
 	for _, h := range hist {
 		p = append(p, fmt.Sprintf("T%d %s [%d,%d] -> %s (update function ran %d times)", h.thread, atomOps[h.op].text(h.c), h.inv, h.ret, h.result, innerRuns[h.c]))
 	}
-	return false, strings.Join(p, "; ") + fmt.Sprintf("; final a=%d b=%d k=(%d)", finalA, finalB, finalK)
+	return false, strings.Join(p, "; ") + fmt.Sprintf("; final a=%d b=%d k=(%d) w=%s", finalA, finalB, finalK, finalW)
 }
 
-func linSearch(ev []linEvent, finalA, finalB, finalK int) bool {
+func linSearch(ev []linEvent, finalA, finalB, finalK int, finalW string) bool {
 	n := len(ev)
 	type key struct {
 		mask uint32
@@ -155,7 +168,7 @@ func linSearch(ev []linEvent, finalA, finalB, finalK int) bool {
 	var rec func(mask uint32, st atomSt) bool
 	rec = func(mask uint32, st atomSt) bool {
 		if mask == 1<<uint(n)-1 {
-			return st.a == finalA && st.b == finalB && st.k == finalK
+			return st.a == finalA && st.b == finalB && st.k == finalK && st.w == finalW
 		}
 		k := key{mask, st}
 		if seen[k] {
@@ -199,7 +212,7 @@ func linSearch(ev []linEvent, finalA, finalB, finalK int) bool {
 		}
 		return false
 	}
-	return rec(0, atomSt{1, 1, 0})
+	return rec(0, atomSt{a: 1, b: 1, k: 0, w: "[1 2]"})
 }
 
 func init() {
@@ -278,8 +291,9 @@ func init() {
 				for j := 0; j < n; j++ {
 					for k := 0; k < n; k++ {
 						add([][]int{{i, j}, {k}})
-						if tier == "thorough" {
-							for l := 0; l < n; l++ {
+						if tier == "thorough" && i < c09CoreOps && j < c09CoreOps && k < c09CoreOps {
+							// (2 || 2) over the first 11 operations (the later ones take part in all smaller plans)
+							for l := 0; l < c09CoreOps; l++ {
 								add([][]int{{i, j}, {k, l}})
 							}
 						}
@@ -318,6 +332,9 @@ func init() {
 					st.k = &concurrent.Atom{Val: types.List{Val: []types.MalType{0}}}
 					st.scope.Set(types.Symbol{Val: "k"}, st.k)
 					st.k.Deref(context.Background())
+					st.w = &concurrent.Atom{Val: types.Vector{Val: []types.MalType{1, 2}}}
+					st.scope.Set(types.Symbol{Val: "w"}, st.w)
+					st.w.Deref(context.Background())
 					// touch the atoms in setup mode so that their locks get schedule-independent ids
 					st.a.Deref(context.Background())
 					st.b.Deref(context.Background())
@@ -409,14 +426,15 @@ func init() {
 						}
 					}
 					sort.Strings(obs)
-					o := strings.Join(obs, ",") + fmt.Sprintf(" a=%d b=%d k=%d", fa, fb, fk)
+					fw := lisp.PRINT(st.w.Val)
+					o := strings.Join(obs, ",") + fmt.Sprintf(" a=%d b=%d k=%d w=%s", fa, fb, fk, fw)
 					runs := map[int]int{}
 					for _, t := range tracer.Log {
 						if c, ok := t.(int); ok {
 							runs[c]++
 						}
 					}
-					if ok, why := linearizable(st.hist, fa, fb, fk, runs); !ok {
+					if ok, why := linearizable(st.hist, fa, fb, fk, fw, runs); !ok {
 						set := map[string]bool{}
 						for _, h := range st.hist {
 							set[atomOps[h.op].name] = true
@@ -434,7 +452,7 @@ func init() {
 		}
 		fam := &vf.Family{
 			Name:     "atom-scenarios",
-			Bounds:   fmt.Sprintf("all multisets of 2 threads x 1 op, 3 threads x 1 op, one op against a thread issuing three writes, a swap! under the caller context against a thread that writes, ends that context and uses the atom again (bound 3; switching at the boundary between two operations of a thread is a free yield, not a preemption), (2 ops || 1 op) and, thorough, (2 ops || 2 ops) over %d atom operations (incl. a swap! under a caller context that another thread ends) on atoms a, b (and k, which holds what an update function kept of its rest arguments); per scenario all interleavings at lock operations and hook points of lib/concurrent up to preemption bound 2 (quick) / 3 (thorough), capped at 20000 (quick) / 200000 (thorough) executions per scenario", len(atomOps)),
+			Bounds:   fmt.Sprintf("all multisets of 2 threads x 1 op, 3 threads x 1 op, one op against a thread issuing three writes, a swap! under the caller context against a thread that writes, ends that context and uses the atom again (bound 3; switching at the boundary between two operations of a thread is a free yield, not a preemption), (2 ops || 1 op) over %d atom operations and, thorough, (2 ops || 2 ops) over the first 11 of them, (incl. a swap! under a caller context that another thread ends) on atoms a, b, w (a sequence: list or vector) (and k, which holds what an update function kept of its rest arguments); per scenario all interleavings at lock operations and hook points of lib/concurrent up to preemption bound 2 (quick) / 3 (thorough), capped at 20000 (quick) / 200000 (thorough) executions per scenario", len(atomOps)),
 			Setup:    setup,
 			Timeout:  120 * time.Second,
 			N:        func(t string) int64 { tier = t; return int64(len(plansOf())) },
@@ -472,12 +490,79 @@ func init() {
 				}
 			},
 		}
+		// a directed schedule beyond the preemption bound: one swap! against a thread that writes 40 times,
+		// the scheduler switching to the writer every time the swap! has read the atom, so the swap! loses
+		// 40 rounds in a row before it can win (one execution per operation: not an exploration)
+		advOps := []string{"swap!-inc", "swap!-plus", "swap!-reads-itself", "swap!-reads-b", "swap!-a-updates-b", "swap!-builtin-calling-back", "swap!-keeps-rest-args", "swap!-failing-fn"}
+		adversary := &vf.Family{
+			Name:     "directed-forty-lost-rounds",
+			Bounds:   fmt.Sprintf("%d swap! operations, each against a thread issuing 40 reset! in a row under a directed schedule in which the swap! loses every round until the writer is done: the swap! must still complete, nothing deadlocks, and the final value is what the last round computes", len(advOps)),
+			Setup:    setup,
+			Timeout:  120 * time.Second,
+			N:        func(string) int64 { return int64(len(advOps)) },
+			Describe: func(i int64) string { return advOps[i] + " against 40 writes, losing every round" },
+			Run: func(i int64, r *vf.Rec) {
+				op := -1
+				for k, o := range atomOps {
+					if o.name == advOps[i] {
+						op = k
+					}
+				}
+				writes := make([]int, 40)
+				for k := range writes {
+					writes[k] = 1 // reset!
+				}
+				sc := mkScenario([][]int{{op}, writes})
+				s := vcore.New(nil, vcore.NewReduction(false))
+				s.VisibleClass = [3]bool{sc.VisibleEnv, sc.VisibleAtom, sc.VisibleHook}
+				s.Policy = func(label string, cur int, enabled []int) int {
+					want := -1
+					switch {
+					case cur == 0 && label == "swap.read":
+						want = 1 // the swap! has read the atom: let the writer write now
+					case cur == 1 && strings.HasPrefix(label, "op-next"):
+						want = 0 // one write done: back to the swap!
+					}
+					for k, id := range enabled {
+						if id == want {
+							return k
+						}
+					}
+					return 0
+				}
+				s.BeginSetup()
+				st := sc.Setup()
+				s.Run(sc.Threads(st)...)
+				r.Exec(1)
+				r.NT()
+				cs := st.(*c09state)
+				switch {
+				case s.Deadlock:
+					r.Violation("deadlock: a swap! that keeps losing rounds blocks forever ("+advOps[i]+")", strings.Join(s.Blocked, "; "))
+				case s.StepCap:
+					r.Violation("a swap! that keeps losing rounds never completes ("+advOps[i]+")", "step cap reached")
+				default:
+					for _, h := range cs.hist {
+						if strings.HasPrefix(h.result, "PANIC") {
+							r.Violation("panic in atom operation "+atomOps[h.op].name, h.result)
+						}
+					}
+					lost := 0
+					for _, p := range s.Points {
+						if p.Label == "swap.read" && p.Cur == 0 {
+							lost++
+						}
+					}
+					r.Outcome(fmt.Sprintf("completed after %d attempts", lost))
+				}
+			},
+		}
 		return &vf.Check{
 			RacePass: c09RacePass,
 			ID:       "C09", Level: "model_checking",
 			Rule:        "every scenario (threads x atom operations) is explored by the controlled scheduler over the real lib/concurrent: every interleaving at lock operations and hook points up to the preemption bound; each complete execution's call/return history must be linearizable w.r.t. the sequential atom specification (a failing function leaves the atom unchanged, a self-reading function sees the value it is applied to, inner updates of another atom may repeat) and no execution may deadlock; non-trivial = scenario with at least one context switch inside an operation",
 			Assumptions: []string{"unsynchronised accesses between scheduling points are not seen by the cooperative scheduler (see the race pass)", "an update function updating its own atom is excluded by the property"},
-			Families:    []*vf.Family{fam},
+			Families:    []*vf.Family{fam, adversary},
 		}
 	})
 }
@@ -487,6 +572,14 @@ func c09InstallCallf(base types.EnvType) {
 	call.CallOverrideFN(base, "callf", func(ctx context.Context, x types.MalType, f types.MalType) (types.MalType, error) {
 		return types.Apply(ctx, f, []types.MalType{x})
 	})
+}
+
+// c09conj3: what (conj w 3) gives for the printed form of a list or a vector of ints
+func c09conj3(w string) string {
+	if strings.HasPrefix(w, "[") {
+		return strings.TrimSuffix(w, "]") + " 3]"
+	}
+	return "(3 " + strings.TrimPrefix(w, "(")
 }
 
 func minInt(a, b int) int {
